@@ -232,7 +232,7 @@ func TestVerif_C01_disc(t *testing.T) {
 		var rd reader.CCIPReader = &vCCIPReader{SyncFn: func(c reader.ContractAddresses) error {
 			got = append(got, c)
 			if syncFails {
-				return vErr
+				return vErrNext()
 			}
 			return nil
 		}}
